@@ -420,6 +420,21 @@ pub fn run(cases_path: &str, out_path: &str, tier: &str, seed: u64, which: &str)
                 let rs = RecSigner::new(&k.primary_key);
                 let _ = cfg.clone().sign(&rs, &Password::empty(), SchedReader::new(doc.clone(), vec![511, 1, 513])).map_err(e)?;
                 if rs.last().as_deref() != Some(&want[..]) { return Err("SIGN side (SignatureConfig::sign): digest differs from the RFC preimage digest".into()); }
+                // sign side through the streaming hasher: the document written in two pieces with an EMPTY write between them, the cut behind
+                // each of the first CRs (a CR LF pair split by nothing must still be one line ending) and in the middle
+                let mut cuts: Vec<usize> = doc.iter().enumerate().filter(|(_, b)| **b == b'\r').map(|(i, _)| i + 1).take(12).collect();
+                cuts.push(doc.len() / 2);
+                for cut in cuts {
+                    let rs = RecSigner::new(&k.primary_key);
+                    let mut hs = cfg.clone().into_hasher().map_err(e)?;
+                    use std::io::Write as _;
+                    hs.write_all(&doc[..cut]).map_err(|x| x.to_string())?;
+                    let z = hs.write(&[]).map_err(|x| x.to_string())?;
+                    if z != 0 { return Err("an empty write reports octets".into()); }
+                    hs.write_all(&doc[cut..]).map_err(|x| x.to_string())?;
+                    let _ = hs.sign(&rs, &Password::empty()).map_err(e)?;
+                    if rs.last().as_deref() != Some(&want[..]) { return Err(format!("SIGN side (into_hasher, pieces {cut} | empty | {}): digest differs from the RFC preimage digest", doc.len() - cut)); }
+                }
                 let forged = forge_data_signature(cfg.clone(), &k.primary_key, &doc)?;
                 let pubk = k.to_public_key();
                 for sched in [vec![1usize << 20], vec![512], vec![1], vec![511, 2, 7]] {
